@@ -424,7 +424,7 @@ def analyse_function(path, fn, prop, res):
                 sa.walk(e, tr)
         if b.get("noreturn"):
             continue
-        tcond = b.get("term", {}).get("cond") if len(b["succs"]) == 2 else None
+        tcond = sa.effective_cond(b.get("term")) if len(b["succs"]) == 2 else None
         for si, s in enumerate(b["succs"]):
             if not isinstance(s, int):
                 continue
